@@ -163,6 +163,55 @@ def r2_arrival(L, repo):
                       lit_fmt({("%s == %s" % (a, b), True)}), lit_fmt(lits), line=node.line)
 
 
+def r2_queue_fold(L, repo):
+    """tx_queue_append(m) / tx_queue_clear() folded on witness queues (empty; bursts of other frames; a burst of the same
+    frame and another timeslot; a burst of the SAME frame and timeslot - L1 is free to send two): afterwards the queue holds
+    everything it held, untouched, plus m itself; clear leaves nothing.  'A burst accepted from L1 ... no burst ever
+    vanishes': an accepted burst that is merged into / dropped in favour of another queued one has vanished."""
+    from consteval import Ev, Unknown, Raised, Opaque
+    F_ = rel("transceiver")
+    ci, ap = repo.need_method("transceiver", "Transceiver", "tx_queue_append")
+    ci2, cl = repo.need_method("transceiver", "Transceiver", "tx_queue_clear")
+    P = params(ap)[1]
+
+    def mk(i, fn_, tn_):
+        return {"ident": i, "fn": fn_, "tn": tn_, "pwr": 10 + i, "burst": bytearray([i % 2] * 148), "ver": 0}
+    cases = [("an empty queue", []),
+             ("bursts of other frames", [mk(1, 99, 3), mk(2, 101, 3)]),
+             ("a burst of the same frame, another timeslot", [mk(1, 100, 2)]),
+             ("a burst of the same frame and timeslot", [mk(1, 100, 3)]),
+             ("two bursts of the same frame and timeslot", [mk(1, 100, 3), mk(2, 100, 3)])]
+    rows = []
+    try:
+        for title, q in cases:
+            new = mk(9, 100, 3)
+            before = [dict(m, burst=bytes(m["burst"])) for m in q]
+            e = Ev(repo, ci.mod, env={"self._tx_queue": list(q), "self._tx_queue_lock": Opaque("lock"), "self.running": True, P: new}, self_cls=ci)
+            e.ignore_calls = ("log.", "logging.")
+            e.run_block(ap.body)
+            after = e.env.get("self._tx_queue")
+            if not isinstance(after, list):
+                return False
+            got = sorted((m.get("ident"), m.get("fn"), m.get("tn"), m.get("pwr"), bytes(m.get("burst") or b"")) if isinstance(m, dict) else repr(m) for m in after)
+            want = sorted((m["ident"], m["fn"], m["tn"], m["pwr"], m["burst"]) for m in before + [dict(new, burst=bytes(new["burst"]))])
+            same_obj = any(m is new for m in after)
+            rows.append((title, want, got, same_obj))
+        e = Ev(repo, ci.mod, env={"self._tx_queue": [mk(1, 5, 0), mk(2, 6, 1)], "self._tx_queue_lock": Opaque("lock")}, self_cls=ci)
+        e.ignore_calls = ("log.", "logging.")
+        e.run_block(cl.body)
+        left = e.env.get("self._tx_queue")
+    except (Unknown, Raised):
+        return False
+    L.fn(F_, "Transceiver.tx_queue_append")
+    digest = lambda rows_: [(i, f, t, p, len(b), sum(b)) for (i, f, t, p, b) in rows_] if all(isinstance(x, tuple) for x in rows_) else rows_
+    for title, want, got, same_obj in rows:
+        L.require("C03.R2", F_, "Transceiver.tx_queue_append", "appending a burst for frame 100 / timeslot 3 to %s: everything queued stays as it was and the new burst is queued as well" % title,
+                  digest(want), digest(got), line=ap.lineno)
+    L.ob("C03.R5", F_, "Transceiver.tx_queue_clear", "tx_queue_clear() leaves the queue empty", [], left if isinstance(left, list) else repr(left),
+         isinstance(left, list) and not left, cl.lineno)
+    return True
+
+
 # -- trichotomy ---------------------------------------------------------------
 
 class _Cls:
@@ -562,6 +611,7 @@ def run(L, tier):
     L.unit(rel("transceiver"))
     L.stage(r1_r2, L, repo, tier)
     L.stage(r2_arrival, L, repo)
+    L.stage(r2_queue_fold, L, repo)
     L.stage(r3_partition, L, repo)
     n = L.stage(r4_modular, L, repo, tier)
     L.stage(r5_poweroff, L, repo)
